@@ -3,6 +3,7 @@ from ..runner import TestSpec, Outcome
 from ..terms import show, Op
 from .. import model, build, gen as G, spec as SP
 from ..snapshot import exact
+from . import edits
 
 ID = "C05"
 RULE = (
@@ -104,4 +105,5 @@ def body(case):
 
 
 def tests(tier):
-    return [TestSpec("rule-test", gen_case, body, {"quick": 6000, "thorough": 500000}, tape=1280, fuzz={"thorough": 40000})]
+    return [TestSpec("rule-test", gen_case, body, {"quick": 6000, "thorough": 500000}, tape=1280, fuzz={"thorough": 40000}),
+            edits.spec("rule", 1500, 120000)]
